@@ -127,7 +127,34 @@ func (st *State) dispatchCall(fr *Frame, in ssa.CallInstruction, c *ssa.CallComm
 		st.inline(fr, in, callee, bindings, args, k)
 		return
 	}
-	if st.entCall(fr, in, callee, args, k) {
+	// vacuity probe around database terminals (a few per call site): some continuation of a feasible path must be feasible
+	kEnt := k
+	switch strings.TrimSuffix(callee.Name(), "X") {
+	case "All", "Only", "First", "IDs", "Count", "Exist", "Scan", "Save", "Exec", "OnlyID", "FirstID":
+		if isEntPkg(callee, st.e.modPath) {
+			site := u.callOrd[in]
+			if site == "" {
+				site = st.siteName(fr, in, "call")
+			}
+			if !fr.isUnit {
+				site = fr.fn.Name() + "/" + site
+			}
+			key := "ent:" + site
+			if u.invCover == nil {
+				u.invCover = map[string]int{}
+			}
+			if u.invCover[key] < 2 {
+				u.invCover[key]++
+				n := u.invCover[key]
+				st.e.addObligation(st, u, "cover", fmt.Sprintf("before-db-%d", n), site, TFalse, u.c.Props, "database call", true)
+				kEnt = func(st2 *State, res SVal) {
+					st2.e.addObligation(st2, u, "cover", fmt.Sprintf("after-db-%d", n), site, TFalse, u.c.Props, "database call", true)
+					k(st2, res)
+				}
+			}
+		}
+	}
+	if st.entCall(fr, in, callee, args, kEnt) {
 		return
 	}
 	if intr, ok := intrinsics[name]; ok {
@@ -455,6 +482,16 @@ func (st *State) applyContract(fr *Frame, in ssa.CallInstruction, ct *Contract, 
 		st.e.addObligation(st, u, "cover", fmt.Sprintf("after-%s-%d", ct.Func, u.invCover[probeKey]), site, TFalse, u.c.Props, "call", true)
 	}
 	k(st, res)
+}
+
+func isEntPkg(callee *ssa.Function, modPath string) bool {
+	p := callee.Package()
+	if p == nil {
+		if o := callee.Origin(); o != nil {
+			p = o.Package()
+		}
+	}
+	return p != nil && p.Pkg.Path() == modPath+"/ent"
 }
 
 func mergeProps(a, b []string) []string {
